@@ -10,7 +10,11 @@ extents, otherwise the tile walk with the stale test removes tile by tile, and n
 in the package calls remove_tile(s) (C12.d).
 Added in round 4: level bounds are only compared with None, level 0 is a level (C12.h); an empty
 coverage is not "no coverage" (C12.i); a per-level cache claims tile time stamps only if its level
-databases have them (C12.j)."""
+databases have them (C12.j).
+Added in round 5: directory strategy only where level directories exist (C12.k); per-cache flags
+stay local (C12.l); numbered directories compare as numbers (C12.m); task time before cache option
+(C12.n, shared C13.j); an empty selection selects nothing (C12.o); one directory per grid (C12.p,
+shared C02.j)."""
 import ast
 import re
 
@@ -659,7 +663,8 @@ def c12m(ctx):
                    'taken for done')
     # the decision table of one step of the comparison is unchanged: smaller -> not skippable, larger -> skippable
     rets = [r for r in returns_of(fn.node)]
-    ctx.check(any(const_value(r.value, 0) is True for r in rets) and any(const_value(r.value, 0) is False for r in rets),
+    ctx.check((any(const_value(r.value, 0) is True for r in rets) or any(isinstance(r.value, ast.Compare) for r in rets)) and
+              any(const_value(r.value, 0) is False for r in rets),
               'DirectoryCleanupProgress.can_skip:both-answers', 'can_skip answers both ways', fn)
 
 
